@@ -8,6 +8,7 @@ use std::net::{Ipv4Addr, SocketAddr, SocketAddrV4, UdpSocket};
 use std::time::{Duration, Instant};
 
 pub fn run(ctx: &mut Ctx) {
+    run_recv(ctx);
     run_spawn(ctx);
     let ips = [0u32, 1, 0x7f000001, 0x0a000001, 0xc0a80001, 0x01020304, 0xffffffff, 0x80000000, 0x00ff00ff];
     let ports = [0u16, 1, 80, 3000, 0x1234, 0xff00, 0x00ff, 65535];
@@ -227,5 +228,53 @@ fn run_spawn(ctx: &mut Ctx) {
                     "actor alive, timer fires at >= 200 ms and before 1200 ms".to_string());
             }
         }
+    }
+}
+
+
+// ---- a large (but legal) datagram reaches on_msg intact, with the sender's Id -------------------
+struct EchoLen;
+impl Actor for EchoLen {
+    type Msg = Vec<u8>;
+    type State = u32;
+    type Timer = ();
+    type Random = ();
+    fn on_start(&self, _id: Id, _o: &mut Out<Self>) -> u32 { 0 }
+    fn on_msg(&self, _id: Id, state: &mut std::borrow::Cow<u32>, src: Id, msg: Vec<u8>, o: &mut Out<Self>) {
+        // reply to the sender (its Id is derived from the datagram's source address) with length + checksum
+        let sum: u32 = msg.iter().fold(0u32, |a, b| a.wrapping_mul(31).wrapping_add(*b as u32));
+        *state.to_mut() += 1;
+        let mut r = (msg.len() as u32).to_be_bytes().to_vec();
+        r.extend_from_slice(&sum.to_be_bytes());
+        o.send(src, r);
+    }
+}
+fn raw_ser(m: &Vec<u8>) -> Result<Vec<u8>, String> { Ok(m.clone()) }
+fn raw_de(b: &[u8]) -> Result<Vec<u8>, String> { Ok(b.to_vec()) }
+
+pub fn run_recv(ctx: &mut Ctx) {
+    for (i, len) in [8usize, 1400, 1501, 5000, 60000].iter().enumerate() {
+        let case = format!("spawn.recv:{}", len);
+        if !ctx.want(&case) { continue; }
+        let Some((me, _my_port)) = bind_in(42500 + 80 * i as u16) else { eprintln!("c17: no UDP port; skipping {}", case); continue };
+        let Some((probe, actor_port)) = bind_in(42540 + 80 * i as u16) else { continue };
+        drop(probe);
+        let actor_addr = SocketAddrV4::new(Ipv4Addr::LOCALHOST, actor_port);
+        std::thread::spawn(move || {
+            let _ = spawn::<EchoLen, String>(raw_ser, raw_de, vec![(Id::from(actor_addr), EchoLen)]);
+        });
+        let payload: Vec<u8> = (0..*len).map(|k| (k * 7 + 3) as u8).collect();
+        let want_sum: u32 = payload.iter().fold(0u32, |a, b| a.wrapping_mul(31).wrapping_add(*b as u32));
+        let deadline = Instant::now() + ms(1500);
+        let mut got = None;
+        // the runtime thread needs a moment to bind: retransmit until the echo arrives
+        while Instant::now() < deadline && got.is_none() {
+            let _ = me.send_to(&payload, actor_addr);
+            if let Some((b, src, _)) = recv_before(&me, Instant::now() + ms(150)) {
+                if b.len() == 8 { got = Some((u32::from_be_bytes([b[0], b[1], b[2], b[3]]), u32::from_be_bytes([b[4], b[5], b[6], b[7]]), src)); }
+            }
+        }
+        let ok = matches!(got, Some((l, s, src)) if l as usize == *len && s == want_sum && src == SocketAddr::V4(actor_addr));
+        ctx.check(&case, "spawn-on-msg-not-the-datagram-sent", &["SPAWN.event-loop (not under contract)"], ok, format!("{:?}", got), format!("echo of length {} checksum {} from {}", len, want_sum, actor_addr));
     }
 }
